@@ -211,6 +211,208 @@ class Tracer:
         return {"outs": outs, "events": evs}
 
 
+
+class DepTracer:
+    """Backward dependency analysis of one FuncDefn through nested containers (single
+    dataflow block; DFG, Conditional/Case, TailLoop inside).  The value of a wire is a tree
+    (tuple structure followed through UnpackTuple / MakeTuple) whose leaves are sets of atoms
+      ("i", input port, path)        a leaf of a function input
+      ("o", node idx, port, path)    a leaf of an output of a non-structural node
+    a node's output leaf carries its own atom plus everything any of its inputs depends on.
+    TailLoop inputs are solved by fixpoint iteration (first iteration's value joined with the
+    body's output)."""
+
+    def __init__(self, h, func_node):
+        self.h, self.func = h, func_node
+        kids = list(h.children(func_node))
+        cfgs = [k for k in kids if isinstance(h[k].op, ops.CFG)]
+        if len(cfgs) != 1:
+            raise TraceError("function body is not a single CFG")
+        blocks = [k for k in h.children(cfgs[0]) if isinstance(h[k].op, ops.DataflowBlock)]
+        if len(blocks) != 1:
+            raise TraceError(f"{len(blocks)} dataflow blocks")
+        self.block = blocks[0]
+        self.memo, self.loop_in = {}, {}
+
+    # ---- trees
+    def expand(self, ty, mk, path=()):
+        comps = is_tuple(ty)
+        if comps is None:
+            return ("s", frozenset(mk(path)))
+        return ("p", tuple(self.expand(c, mk, path + (i,)) for i, c in enumerate(comps)))
+
+    def flat(self, t):
+        if t[0] == "s":
+            return t[1]
+        out = frozenset()
+        for c in t[1]:
+            out |= self.flat(c)
+        return out
+
+    def join(self, a, b, ty):
+        if a[0] == "p" and b[0] == "p" and len(a[1]) == len(b[1]):
+            comps = is_tuple(ty) or [None] * len(a[1])
+            return ("p", tuple(self.join(x, y, c) for x, y, c in zip(a[1], b[1], comps)))
+        if a[0] == "s" and b[0] == "s":
+            return ("s", a[1] | b[1])
+        f = self.flat(a) | self.flat(b)
+        return self.expand(ty, lambda p: f) if ty is not None else ("s", f)
+
+    def io(self, node):
+        ch = list(self.h.children(node))
+        return (next(k for k in ch if isinstance(self.h[k].op, ops.Input)),
+                next(k for k in ch if isinstance(self.h[k].op, ops.Output)))
+
+    def src(self, node, port):
+        ls = list(self.h.linked_ports(InPort(node, port)))
+        if len(ls) != 1:
+            raise TraceError(f"in-port {node.idx}.{port} has {len(ls)} sources")
+        return ls[0]
+
+    def inval(self, node, port):
+        return self.val(self.src(node, port))
+
+    def value_in_ports(self, node):
+        h, out = self.h, []
+        for ip in range(h.num_in_ports(node)):
+            ls = list(h.linked_ports(InPort(node, ip)))
+            if len(ls) != 1 or isinstance(h[ls[0].node].op, (ops.FuncDefn, ops.FuncDecl)):
+                continue
+            try:
+                ty = h.port_type(ls[0])
+            except Exception:  # noqa: BLE001
+                continue
+            if ty is None or isinstance(ty, (ht.FunctionType, ht.PolyFuncType)):
+                continue
+            out.append(ip)
+        return out
+
+    def val(self, op_):
+        key = (op_.node.idx, op_.offset)
+        if key in self.memo:
+            return self.memo[key]
+        h, node, port = self.h, op_.node, op_.offset
+        op, ty = h[node].op, h.port_type(op_)
+        if isinstance(op, ops.Input):
+            par = h[node].parent
+            pop = h[par].op
+            if par == self.block:
+                r = self.expand(ty, lambda p: [("i", port, p)])
+            elif isinstance(pop, ops.Case):
+                cond = h[par].parent
+                cases = [k for k in h.children(cond) if isinstance(h[k].op, ops.Case)]
+                row = list(h[cond].op.sum_ty.variant_rows[cases.index(par)])
+                if port < len(row):
+                    f = frozenset(("d" + a[0].lstrip("d"),) + a[1:] for a in self.flat(self.inval(cond, 0)))
+                    r = self.expand(ty, lambda p: f)
+                else:
+                    r = self.inval(cond, port - len(row) + 1)
+            elif isinstance(pop, ops.TailLoop):
+                r = self.loop_in[par.idx][port]
+            elif isinstance(pop, ops.DFG):
+                r = self.inval(par, port)
+            else:
+                raise TraceError(f"input of unsupported container {type(pop).__name__}")
+        elif isinstance(op, ops.UnpackTuple):
+            t = self.inval(node, 0)
+            r = t[1][port] if t[0] == "p" and port < len(t[1]) else self.expand(ty, lambda p, f=self.flat(t): f)
+        elif isinstance(op, ops.MakeTuple):
+            comps = is_tuple(ty) or []
+            r = ("p", tuple(self.inval(node, i) for i in range(len(comps))))
+        elif isinstance(op, ops.Conditional):
+            cases = [k for k in h.children(node) if isinstance(h[k].op, ops.Case)]
+            r = None
+            for c in cases:
+                v = self.inval(self.io(c)[1], port)
+                r = v if r is None else self.join(r, v, ty)
+        elif isinstance(op, ops.DFG):
+            r = self.inval(self.io(node)[1], port)
+        elif isinstance(op, ops.TailLoop):
+            self.solve_loop(node)
+            r = self.memo[key]
+        else:
+            # atoms that pass through an operation become "derived" ("di"/"do"): only wires that reach
+            # a point through tuple (un)packing and container boundaries keep their direct atom
+            f = frozenset()
+            for ip in self.value_in_ports(node):
+                f |= frozenset(("d" + a[0].lstrip("d"),) + a[1:] for a in self.flat(self.inval(node, ip)))
+            r = self.expand(ty, lambda p: f | {("o", node.idx, port, p)})
+        self.memo[key] = r
+        return r
+
+    def solve_loop(self, node):
+        h, op = self.h, self.h[node].op
+        nj = len(op.just_inputs)
+        n_in = h.num_in_ports(node)
+        ins = self.value_in_ports(node)
+        init = {j: self.inval(node, j) for j in ins}
+        tys = {j: h.port_type(self.src(node, j)) for j in ins}
+        _, bout = self.io(node)
+        inside = set()
+
+        def walk(n):
+            for c in h.children(n):
+                inside.add(c.idx)
+                walk(c)
+        walk(node)
+        assume = dict(init)
+        for _ in range(8):
+            self.loop_in[node.idx] = assume
+            for k in [k for k in self.memo if k[0] in inside]:
+                del self.memo[k]
+            ctl = frozenset(("d" + a[0].lstrip("d"),) + a[1:] for a in self.flat(self.inval(bout, 0)))
+            new = {}
+            for j in ins:
+                if j < nj:
+                    new[j] = self.join(init[j], self.expand(tys[j], lambda p: ctl), tys[j])
+                else:
+                    new[j] = self.join(init[j], self.inval(bout, 1 + j - nj), tys[j])
+            if new == assume:
+                break
+            assume = new
+        self.loop_in[node.idx] = assume
+        n_rest = len(ins) - nj
+        n_out = h.num_out_ports(node)
+        n_just_out = n_out - n_rest
+        for o in range(n_out):
+            try:
+                ty = h.port_type(OutPort(node, o))
+            except Exception:  # noqa: BLE001
+                continue
+            if o < n_just_out:
+                v = self.expand(ty, lambda p: ctl)
+            else:
+                v = self.inval(bout, 1 + o - n_just_out)
+            self.memo[(node.idx, o)] = v
+
+    def enc(self, t):
+        if t[0] == "p":
+            return {"p": [self.enc(c) for c in t[1]]}
+        return {"s": sorted([list(a[:-1]) + [list(a[-1])] for a in t[1]], key=str)}
+
+    def run(self):
+        h = self.h
+        _, bout = self.io(self.block)
+        outs = [self.enc(self.inval(bout, i)) for i in range(1, h.num_in_ports(bout))]
+        calls = []
+
+        def walk(n, in_loop):
+            for c in h.children(n):
+                op = h[c].op
+                if isinstance(op, ops.Call):
+                    callee = None
+                    for ip in range(h.num_in_ports(c) - 1, -1, -1):
+                        ls = list(h.linked_ports(InPort(c, ip)))
+                        if len(ls) == 1 and isinstance(h[ls[0].node].op, (ops.FuncDefn, ops.FuncDecl)):
+                            callee = h[ls[0].node].op.f_name
+                            break
+                    calls.append({"idx": c.idx, "callee": callee, "in_loop": in_loop,
+                                  "inputs": [self.enc(self.inval(c, ip)) for ip in self.value_in_ports(c)]})
+                walk(c, in_loop or isinstance(op, ops.TailLoop))
+        walk(self.block, False)
+        return {"dep_outs": outs, "calls": calls}
+
+
 def run_case(case, scratch):
     mod_name = "c07_" + case["id"].replace("-", "_").replace(":", "_")
     path = os.path.join(scratch, mod_name + ".py")
@@ -247,6 +449,9 @@ def run_case(case, scratch):
                 continue
             h, n = nodes[cands[0]]
             try:
+                if case.get("mode") == "deps":
+                    res["funcs"].setdefault(fn, {}).update(DepTracer(h, n).run())
+                    continue
                 res["funcs"].setdefault(fn, {}).update(Tracer(h, n).run())
             except TraceError as e:
                 res["funcs"].setdefault(fn, {})["error"] = f"trace: {e}"
